@@ -206,7 +206,7 @@ func tryReplay(eng *Engine, verif, prop string, ob *Obligation, b *strings.Build
 				return false
 			}
 			decls = append(decls, fmt.Sprintf("\t%s := %s(%s)", n, typeText[n], vals[0]))
-		case isByteSlice(p.Type()) && len(leaves) == 4 && ob.ByteHeap != "":
+		case isByteSlice(p.Type()) && len(leaves) == 4:
 			hdr, ok := evalInModel(ob, []Term{leaves[0], leaves[2]})
 			if !ok {
 				say("not attempted (no model value for slice %s)", n)
@@ -223,6 +223,10 @@ func tryReplay(eng *Engine, verif, prop string, ob *Obligation, b *strings.Build
 			}
 			var elems []Term
 			for k := 0; k < ln; k++ {
+				if ob.ByteHeap == "" {
+					elems = append(elems, "0") // the function never reads the bytes: any content will do
+					continue
+				}
 				elems = append(elems, app("select", app("select", ob.ByteHeap, leaves[0]), sidx(leaves[1], num(int64(k)))))
 			}
 			ev, ok := evalInModel(ob, elems)
